@@ -5,7 +5,7 @@
    for the leaf kinds an accepted input yields a value whose encoding, length and re-decoding are
    consistent.  Soundness for composite kinds is tied by the correspondence + model-free oracles
    (readability, limits, content / root / encoding consistency, encode-decode stability). *)
-Require Import RM.Base RM.Tree RM.Types RM.Spec RM.ModelViews RM.ModelCodec RM.CodecBasicProofs.
+Require Import RM.Base RM.Tree RM.Types RM.Spec RM.ModelViews RM.ModelCodec RM.CodecBasicProofs RM.SoundProofs.
 Local Open Scope N_scope.
 
 Theorem C09_total : forall H t s scope,
@@ -30,6 +30,32 @@ Theorem C09_bool_sound : forall H src s scope nd rest, deser_impl H TBool s scop
   scope = 1 /\ exists b : bool, s = (if b then x01 else x00) :: rest /\ ser_impl H src TBool nd = Ok ([if b then x01 else x00], 1).
 Proof. exact deser_bool_canonical. Qed.
 
+(* the full statement, every type: whatever is accepted is a well-formed value (lengths within limits,
+   integers in range, valid selector: `wf`), its backing is the constructor's (every element
+   readable as in C01/C02), and content / encoding / byte length / hash-tree-root are mutually
+   consistent: the root is the spec root, re-encoding gives the consumed bytes and their count *)
+Theorem C09_sound : forall H src t s scope n rest, wf_ty t = true ->
+  deser_impl H t s scope = Ok (n, rest) -> scope <= lenN s ->
+  exists v, wf t v = true /\ mk H t v = Ok n /\ s = ser t v ++ rest /\ lenN (ser t v) = scope /\
+            root H n = htr H t v /\ ser_impl H src t n = Ok (ser t v, scope).
+Proof. intros H src t s scope n rest. exact (deser_canonical H t s scope n rest src). Qed.
+
+(* ... and stable under a further encode / decode cycle *)
+Theorem C09_stable : forall H src t bs n, wf_ty t = true -> lenN bs < 2 ^ 32 -> decode_bytes H t bs = Ok n ->
+  exists e, ser_impl H src t n = Ok (e, lenN e) /\ decode_bytes H t e = Ok n.
+Proof. intros H src t bs n. exact (decode_stable H t bs n src). Qed.
+
+(* non-vacuity: both outcomes occur (over-limit list rejected, in-limit accepted) *)
+Example C09_both_outcomes : forall H,
+  (exists n, decode_bytes H (TList (TUint 2) 2) [x01; x00; x02; x00] = Ok n) /\
+  (exists e, decode_bytes H (TList (TUint 2) 2) [x01; x00; x02; x00; x03; x00] = Err e) /\
+  (exists e, decode_bytes H (TBitlist 3) [x00] = Err e) /\
+  (exists e, decode_bytes H (TBitlist 3) [x1f] = Err e) /\
+  (exists n, decode_bytes H (TBitlist 3) [x0f] = Ok n).
+Proof. intros H. repeat split; vm_compute; eauto. Qed.
+
 Print Assumptions C09_total.
+Print Assumptions C09_sound.
+Print Assumptions C09_stable.
 Print Assumptions C09_uint_stable.
 Print Assumptions C09_bool_sound.
